@@ -11,6 +11,7 @@ import (
 	"go/token"
 	"go/types"
 	"golang.org/x/tools/go/ssa"
+	"golang.org/x/tools/go/types/typeutil"
 	"strings"
 )
 
@@ -28,8 +29,6 @@ var trustedIndex = map[string]string{
 	"matchRegex: re.Sub[1:]":                                  "regexp/syntax contract: OpConcat has >= 2 sub-expressions",
 	"(*SelectStatement).ColumnNames: columnNames[0]":          "columnNames has len(columnFields)+offset entries and offset is 1 under the same !s.OmitTime test",
 	"(*SelectStatement).ColumnNames: columnNames[i + offset]": "i ranges over columnFields and columnNames has len(columnFields)+offset entries",
-	"(*SelectStatement).RewriteTimeFields: s.Fields[:i]":      "i < len(s.Fields) by the loop condition",
-	"(*SelectStatement).RewriteTimeFields: s.Fields[i + 1:]":  "i < len(s.Fields) by the loop condition, so i+1 <= len",
 	"Sanitize: match[2]":                                      "regexp contract: FindAllStringSubmatchIndex yields 2*(1+groups) indices; both patterns have one group",
 	"Sanitize: match[3]":                                      "regexp contract: FindAllStringSubmatchIndex yields 2*(1+groups) indices; both patterns have one group",
 	"Sanitize: query[i:match[2]]":                             "regexp contract: match offsets are increasing and within the searched string",
@@ -131,13 +130,27 @@ func (t *totality) run() {
 					c.Unk(R("divzero"), key, e.Pos(), "the divisor "+types.ExprString(e.Y)+" is not proved non-zero; it is a local computed from tables/helpers, not input data, so this is not decided")
 				}
 			case *ast.SelectorExpr:
-				if vp, ok := pe.pathOf(e.X); ok && f.maybeNil[vp] {
+				if vp, ok := pe.pathOf(e.X); ok && f.errVal[vp] {
+					nOk++
+					c.Bad(R("okdrop"), fb.Name+": "+types.ExprString(e), e.Pos(), types.ExprString(e.X)+" was returned together with an error that is not known to be nil on this path; it may be nil here")
+				} else if vp, ok := pe.pathOf(e.X); ok && f.maybeNil[vp] {
 					if _, isPkg := p.Info.Uses[identOf(e.X)].(*types.PkgName); isPkg {
 						return
 					}
 					nOk++
 					key := fb.Name + ": " + types.ExprString(e)
 					c.Bad(R("okdrop"), key, e.Pos(), types.ExprString(e.X)+" comes from a comma-ok assertion whose ok result is discarded or untested on this path; it may be nil here")
+				}
+			case *ast.CallExpr:
+				// a pointer that came with an untested error, handed to an in-package function
+				if callee, _ := typeutil.Callee(p.Info, e).(*types.Func); callee != nil && callee.Pkg() == p.Types {
+					for _, a := range e.Args {
+						if vp, ok := pe.pathOf(a); ok && f.errVal[vp] {
+							nOk++
+							key := fb.Name + ": " + types.ExprString(a) + " passed to " + callee.Name()
+							c.Bad(R("okdrop"), key, a.Pos(), types.ExprString(a)+" was returned together with an error that is not known to be nil on this path (it is tested only in combination with another error, or not at all): it may be nil here")
+						}
+					}
 				}
 			case *ast.StarExpr:
 				if vp, ok := pe.pathOf(e.X); ok && f.maybeNil[vp] {
@@ -366,11 +379,80 @@ func (t *totality) slice(fb funcBody, e *ast.SliceExpr, f *facts, pe pathEnv) {
 		c.Bad(rule, key, e.Pos(), fmt.Sprintf("slice bounds need len(%s) >= %d; guards on this path establish only %d (facts: %s)", types.ExprString(e.X), need, f.lenlb[xp], f.String()))
 		return
 	}
+	// variable bounds i or i+1 with 0 <= i < len(X) established on this path
+	if hasPath && e.Max == nil {
+		inRangeBound := func(b ast.Expr) (ok bool, isVar bool) {
+			if b == nil {
+				return true, false
+			}
+			if _, isConst := pe.constInt(b); isConst {
+				return false, false
+			}
+			if ip, ok := pe.pathOf(b); ok && f.inRange[ip] == xp {
+				return true, true
+			}
+			if be, ok := ast.Unparen(b).(*ast.BinaryExpr); ok && be.Op == token.ADD {
+				if k, isC := pe.constInt(be.Y); isC && k == 1 {
+					if ip, ok := pe.pathOf(be.X); ok && f.inRange[ip] == xp {
+						return true, true // i+1 <= len
+					}
+				}
+			}
+			return false, true
+		}
+		okLo, varLo := inRangeBound(e.Low)
+		okHi, varHi := inRangeBound(e.High)
+		if okLo && okHi && (varLo != varHi) { // exactly one variable bound, the other absent
+			c.OK(rule, key, e.Pos(), "bound is i or i+1 with 0 <= i < len("+types.ExprString(e.X)+") on every path")
+			return
+		}
+		if (varLo || varHi) && t.roots != nil && t.roots.rooted(e.X, 0) {
+			// an index variable with no range fact for this slice on this path
+			if id := varBoundIdent(e); id != nil && indexOfOtherValue(pe, f, id, xp) {
+				c.Bad(rule, key, e.Pos(), fmt.Sprintf("the bound indexes %s but is only known to be in range of another value (the slice as it was when the loop began): after an element is removed it can exceed the length", types.ExprString(e.X)))
+				return
+			}
+		}
+	}
 	if why, ok := trustedIndex[key]; ok {
 		c.OK(rule, key, e.Pos(), "contract: "+why)
 		return
 	}
 	c.Unk(rule, key, e.Pos(), "slice expression with variable bounds outside the recognised idioms and not in the contract table")
+}
+
+// varBoundIdent returns the identifier of the first variable bound (i or i+1).
+func varBoundIdent(e *ast.SliceExpr) *ast.Ident {
+	for _, b := range []ast.Expr{e.Low, e.High} {
+		if b == nil {
+			continue
+		}
+		x := ast.Unparen(b)
+		if be, ok := x.(*ast.BinaryExpr); ok {
+			x = ast.Unparen(be.X)
+		}
+		if id, ok := x.(*ast.Ident); ok {
+			return id
+		}
+	}
+	return nil
+}
+
+// indexOfOtherValue: id is the key of a range statement (it is an index of
+// something) but carries no in-range fact for xp here.
+func indexOfOtherValue(pe pathEnv, f *facts, id *ast.Ident, xp string) bool {
+	ip, ok := pe.pathOf(id)
+	if !ok {
+		return false
+	}
+	if _, has := f.inRange[ip]; has {
+		return false
+	}
+	obj := pe.info.ObjectOf(id)
+	if obj == nil {
+		return false
+	}
+	return pe.rangeKeys != nil && pe.rangeKeys[obj]
 }
 
 var _ = strings.TrimSpace
